@@ -8,6 +8,7 @@ import (
 	"crypto/x509"
 	"errors"
 	"fmt"
+	"sort"
 	"sync"
 	"time"
 
@@ -71,6 +72,20 @@ func (m *TrustStore) GetCertificates(ctx context.Context, t truststore.Type, nam
 		return nil, truststore.TrustStoreError{Msg: fmt.Sprintf("scripted trust store %q does not exist or is empty", k)}
 	}
 	return append([]*x509.Certificate{}, c...), nil
+}
+
+// Keys lists the "type:name" keys of the stores that hold certificates, sorted.
+func (m *TrustStore) Keys() []string {
+	m.mu.Lock()
+	defer m.mu.Unlock()
+	var out []string
+	for k, c := range m.Certs {
+		if len(c) > 0 {
+			out = append(out, k)
+		}
+	}
+	sort.Strings(out)
+	return out
 }
 
 // ---------- revocation ----------
